@@ -23,10 +23,7 @@ def allOk (c : Codec) (vs : List SVal) : Prop := ∀ v ∈ vs, c.ok v = true ∧
 /-- the loop of `merge_loop` over the payloads of a packed run. -/
 theorem mergeLoopGo_packed (c : Codec) (hn : c.isNumeric = true) (vs : List SVal) (hv : allOk c vs) (r : Bytes) :
     ∀ (acc : List SVal) (f : Nat), vs.length < f →
-    mergeLoopGo (fun acc bs =>
-      match c.merge c.wt bs with
-      | .ok (v, r) => .ok (acc ++ [v], r)
-      | .err k => .err k | .panic s => .panic s | .fuel => .fuel) f acc (vs.flatMap c.encPayload ++ r) r.length
+    mergeLoopGo c.packedStep f acc (vs.flatMap c.encPayload ++ r) r.length
       = .ok (acc ++ vs, r) := by
   induction vs with
   | nil =>
@@ -45,7 +42,7 @@ theorem mergeLoopGo_packed (c : Codec) (hn : c.isNumeric = true) (vs : List SVal
       unfold mergeLoopGo
       simp only [hgt, if_true]
       have hv1 := hv v (by simp)
-      simp only [List.flatMap_cons, List.append_assoc, merge_enc c v hv1.1 hv1.2]
+      simp only [packedStep, List.flatMap_cons, List.append_assoc, merge_enc c v hv1.1 hv1.2]
       rw [ih (fun x hx => hv x (by simp [hx])) (acc ++ [v]) f (by simp at hf; omega)]
       simp
 
